@@ -82,10 +82,12 @@ function mkFile (name, body, layout, chained) {
   let orig = { path: file, shift: 0 }
   if (chained) {
     // a synthetic "pre-transpilation" source: line L of this file is line L + 20 of <name>.ts
-    const segs = lines.map((_, i) => ({ gl: i, gc: 0, src: 0, ol: i + tsShift, oc: 0 }))
-    const M = SM.encodeMap({ sources: [name + '.ts'], names: [], segments: segs, file: name + '.js' })
+    // two original sources (a bundle): the first half of the lines comes from <name>.ts, the rest from <name>_part2.ts
+    const split = Math.floor(lines.length / 2)
+    const segs = lines.map((_, i) => ({ gl: i, gc: 0, src: i < split ? 0 : 1, ol: i + tsShift, oc: 0 }))
+    const M = SM.encodeMap({ sources: [name + '.ts', name + '_part2.ts'], names: [], segments: segs, file: name + '.js' })
     code += '//# sourceMappingURL=data:application/json;base64,' + b64(JSON.stringify(M)) + '\n'
-    orig = { path: path.join(DIR, name + '.ts'), shift: tsShift }
+    orig = { path: path.join(DIR, name + '.ts'), path2: path.join(DIR, name + '_part2.ts'), split, shift: tsShift }
   }
   return { file, code, sites, orig, lineCount: lines.length }
 }
@@ -126,6 +128,8 @@ function capture (fn, mode, main) {
 
 // judge every site of one loaded file. `expect` = {path, shift, sites, translate:boolean}
 function judge (main, exportsObj, fileInfo, expect, v, where, notes) {
+  // chained bundles: the original file depends on the (intermediate) line
+  const pathOf = (translatedLine) => (expect.path2 && (translatedLine - expect.shift) > expect.split) ? expect.path2 : expect.path
   for (const name of Object.keys(CALLS)) {
     if (!(name in exportsObj)) continue
     const call = () => CALLS[name](exportsObj)
@@ -154,7 +158,7 @@ function judge (main, exportsObj, fileInfo, expect, v, where, notes) {
         const isTop = firstInFile && i === 0
         firstInFile = false
         if (expect.translate) {
-          if (h.file !== expect.path) v('frame-wrong-path', 'handler', `${where}: site ${name} frame ${i}: reported file ${h.file}, original is ${expect.path}`)
+          if (h.file !== pathOf(h.line)) v('frame-wrong-path', 'handler', `${where}: site ${name} frame ${i}: reported file ${h.file}:${h.line}, original is ${pathOf(h.line)}`)
           else if (!okLine(h.line, isTop)) v('frame-wrong-line', 'handler:' + (isTop ? 'top' : 'caller'), `${where}: site ${name} frame ${i} (${r.fn}) at content line ${r.line} reported as line ${h.line}; original site lines: ${JSON.stringify(expect.sites)} shift ${expect.shift}`)
         } else if (h.file !== r.file || h.line !== r.line) v('untracked-frame-changed', 'handler', `${where}: site ${name} frame ${i}: no map should apply, yet ${r.file}:${r.line} became ${h.file}:${h.line}`)
       } else if (h.file !== r.file || h.line !== r.line || h.col !== r.col) v('foreign-frame-changed', 'handler', `${where}: frame ${i} of ${name} belongs to ${r.file} (not rewritten) but ${r.file}:${r.line}:${r.col} became ${h.file}:${h.line}:${h.col}`)
@@ -174,8 +178,9 @@ function judge (main, exportsObj, fileInfo, expect, v, where, notes) {
       const m = new RegExp(escapeRe(fileInfo.file) + ':(\\d+):(\\d+)').exec(d)
       if (!m) return
       if (!expect.translate) { if (s !== d) v('untracked-frame-changed', 'string', `${where}: no map should apply, yet "${d.trim()}" -> "${s.trim()}"`); return }
-      const m2 = new RegExp(escapeRe(expect.path) + ':(\\d+):(\\d+)').exec(s)
+      const m2 = new RegExp('(?:' + escapeRe(expect.path) + (expect.path2 ? '|' + escapeRe(expect.path2) : '') + '):(\\d+):(\\d+)').exec(s)
       const isTop = li === firstAt && r.file === fileInfo.file
+      if (m2 && !m2[0].startsWith(pathOf(Number(m2[1])) + ':')) { v('frame-wrong-path', 'string:source', `${where}: site ${name}: "${s.trim()}" names the wrong original file for that line (expected ${pathOf(Number(m2[1]))})`); return }
       if (!m2) { v('frame-wrong-path', 'string' + (r.eval ? ':eval' : ''), `${where}: site ${name}: "${d.trim()}" was not translated to ${expect.path} ("${s.trim()}")`); return }
       if (!okLine(Number(m2[1]), isTop)) v('frame-wrong-line', 'string:' + (r.eval ? 'eval' : isTop ? 'top' : 'caller'), `${where}: site ${name}: "${d.trim()}" became "${s.trim()}"; original site lines ${JSON.stringify(expect.sites)} shift ${expect.shift}`)
       // everything but the location must be byte-identical
@@ -264,7 +269,7 @@ async function check (leaf, resps) {
     const out = new main.Rewriter(config).rewrite(f.code, f.file)
     let ex
     try { ex = load(f.file, out.content) } catch (e) { v('content-does-not-load', 'load', String(e).slice(0, 160)); return res }
-    judge(main, ex, f, { path: f.orig.path, shift: f.orig.shift, sites: f.sites, translate: true }, v, `file ${path.basename(f.file)} (${p.layout}${p.chained ? ', chained' : ''})`, res.notes)
+    judge(main, ex, f, { path: f.orig.path, path2: f.orig.path2, split: f.orig.split, shift: f.orig.shift, sites: f.sites, translate: true }, v, `file ${path.basename(f.file)} (${p.layout}${p.chained ? ', chained' : ''})`, res.notes)
   } else if (leaf.fam === 'history') {
     const config = cfgFor('c')
     const byVer = {}
@@ -287,7 +292,7 @@ async function check (leaf, resps) {
         let ex
         try { ex = load(file, st.content) } catch (e) { v('content-does-not-load', 'load', String(e).slice(0, 120)); continue }
         const where = `after event ${i} of [${leaf.hist.join(',')}], file ${path.basename(file)} @${st.ver}`
-        if (st.modified) judge(main, ex, st.f, { path: st.f.orig.path, shift: st.f.orig.shift, sites: st.f.sites, translate: true }, v, where, res.notes)
+        if (st.modified) judge(main, ex, st.f, { path: st.f.orig.path, path2: st.f.orig.path2, split: st.f.orig.split, shift: st.f.orig.shift, sites: st.f.sites, translate: true }, v, where, res.notes)
         else {
           const sub = []
           judge(main, ex, st.f, { path: file, shift: 0, sites: st.f.sites, translate: false }, (rule, sig, detail) => sub.push({ rule, sig, detail }), where, res.notes)
